@@ -287,6 +287,11 @@ def life_stage(w, prop, invariants, tier, seed, ev):
             hists.append(t)
     if not hists:
         raise Infra("TLC emitted no histories:\n" + outs[0][-2000:])
+    form = os.environ.get("VERIF_LIFE_FORM")
+    if form:  # same histories over functions of another form (e.g. assembled with BuildFunc)
+        for h in hists:
+            for fsp in h["targets"] + h["convs"]:
+                fsp["form"] = form
     vlib.write_json(w.path("histories.json"), hists)
     r = w.run_drive(["life", "-in", "histories.json", "-reps", "1" if q else "2", "-seed", str(seed), "-out", "life.ndjson"], timeout=3000)
     log(r.stderr.strip())
@@ -608,6 +613,166 @@ def run_c20(tier, seed, keep=False):
     return rc
 
 
+# --------------------------------------------------------------------------- specification as oracle (C14, C15, C17)
+
+ORACLES = {"C14": ("Introspect.tla", "c14", "C14"), "C15": ("ValueSet.tla", "c15", "C15"), "C17": ("ResultAcc.tla", "c17", "C17")}
+
+
+def run_oracle(prop, tier, seed, keep=False):
+    """TLC enumerates the whole descriptor space of the module, the harness builds every descriptor with
+    reflection and records what the library reports, TLC compares each observation with Expected(desc)."""
+    import re
+    module, kind, inv = ORACLES[prop]
+    ev = Evidence(prop, tier, seed)
+    with Work(keep) as w:
+        w.build()
+        write_cfg(w, "E.cfg", "EnumSpec", ["Emit"], constants={"TraceFile": '"none"'}, post=None, alias=None)
+        res = w.tlc(module, "E.cfg", workers=4, timeout=900)
+        ev.add_tlc("descriptor-enumeration", res, "model_checking")
+        descs = []
+        for ln in res["out"].splitlines():
+            m = re.match(r'<<"DESC", "(.*)">>$', ln.strip())
+            if m:
+                descs.append(json.loads(json.loads('"' + m.group(1) + '"')))
+        if not res["ok"] or not descs:
+            raise Infra("descriptor enumeration failed:\n" + res["out"][-2500:])
+        vlib.write_json(w.path("descs.json"), descs)
+        r = w.run_drive(["intro", "-kind", kind, "-in", "descs.json", "-out", "obs.ndjson", "-reps", "2" if tier == "quick" else "5"])
+        log(r.stderr.strip())
+        cfg = write_cfg(w, "T.cfg", "TraceSpec", [inv], constants={"TraceFile": '"obs.ndjson"'})
+        tres = w.tlc(module, cfg, workers=1, timeout=1800)
+        ev.add_tlc("observations-vs-expected", tres, "trace_validation")
+        lines = open(w.path("obs.ndjson")).read().splitlines()
+        rc = 0
+        if tres["violated"]:
+            line, _ = vlib.last_alias_state(tres["out"])
+            obs = json.loads(lines[max(0, (line or 2) - 2)])
+            os.makedirs(vlib.REPLAYS, exist_ok=True)
+            rp = os.path.join(vlib.REPLAYS, "%s-%s.json" % (prop, vlib.sha(json.dumps(obs.get("desc"), sort_keys=True))))
+            vlib.write_json(rp, {"property": prop, "invariant": inv, "spec": module, "observation": obs, "seed": seed})
+            ev.doc["violations"] += 1
+            print("VIOLATION property=%s replay=%s" % (prop, rp), flush=True)
+            rc = 1
+        elif not tres["ok"] or tres["post_false"]:
+            raise Infra("oracle run did not complete:\n" + tres["out"][-2500:])
+        ev.cov["traces_validated_against_impl"] += len(lines)
+        ev.cov["evaluations"] += len(lines)
+        ev.cov["distinct_nontrivial"] = len(descs)
+        ev.cov["exhaustive"] = True
+        ev.cov["rule"] = ("every descriptor of the bounded space defined in %s (enumerated by TLC), each built by reflection and observed through "
+                          "the public API; distinct_nontrivial = number of descriptors" % module)
+        ev.sample(descs[len(descs) // 2])
+        ev.sample(json.loads(lines[len(lines) // 2]))
+        if rc == 0 and prop == "C15":
+            rc = built_functions_stage(w, tier, seed, ev)
+        ev.doc["assumptions"] = ["reflect.StructOf / FuncOf build the signatures the descriptors describe (unexported fields only through "
+                                 "the statically declared structs of the harness)"]
+        ev.write()
+    return rc
+
+
+def built_functions_stage(w, tier, seed, ev):
+    """C15, second half: functions assembled with NewValueSet + BuildFunc must behave like ordinary functions:
+    the contract invariants over scenarios and histories in which every function is a built one."""
+    q = tier == "quick"
+    n = 2500 if q else 25000
+    w.run_drive(["gen", "-profile", "built", "-n", str(n), "-seed", str(seed), "-out", "scenarios.json"])
+    r = w.run_drive(["run", "-in", "scenarios.json", "-reps", "3", "-seed", str(seed), "-out", "trace.ndjson"])
+    log(r.stderr.strip())
+    summarize_trace(w.path("trace.ndjson"), ev, ev.cov["rule"])
+    rc = trace_validate(w, "C15", ["C01", "C02", "C04", "C06"], "trace.ndjson", ev, label="built-functions")
+    if rc == 0:
+        os.environ["VERIF_LIFE_FORM"] = "built"
+        try:
+            rc = life_stage(w, "C15", ["C01", "C04", "C06", "C11"], tier, seed, ev)
+        finally:
+            del os.environ["VERIF_LIFE_FORM"]
+    return rc
+
+
+# --------------------------------------------------------------------------- C12: sharing between concurrent calls
+
+
+def parse_races(stderr, repo):
+    """Split the race detector's output into reports; a report concerns the library if one of the two
+    conflicting accesses happens in library code (first frame outside the Go runtime / reflect)."""
+    import re
+    reports = stderr.split("WARNING: DATA RACE")[1:]
+    lib, harness = [], []
+    for rep in reports:
+        sites = []
+        for sec in re.split(r"\n(?=(?:Previous )?(?:[Ww]rite|[Rr]ead) at )", "\n" + rep):
+            if not re.match(r"(?:Previous )?(?:[Ww]rite|[Rr]ead) at ", sec.strip()):
+                continue
+            site = None
+            for m in re.finditer(r"\n\s+(/\S+\.go):(\d+)", sec):
+                if not m.group(1).startswith("/usr/lib/go") and "/opt/veriftools/go" not in m.group(1):
+                    site = m.group(1) + ":" + m.group(2)
+                    break
+            sites.append(site)
+        text = "WARNING: DATA RACE" + rep.split("==================")[0]
+        if any(s and s.startswith(repo.rstrip("/") + "/") for s in sites):
+            lib.append({"sites": sites, "report": text[:6000]})
+        else:
+            harness.append({"sites": sites, "report": text[:3000]})
+    return lib, harness
+
+
+def run_c12(tier, seed, keep=False):
+    ev = Evidence("C12", tier, seed)
+    q = tier == "quick"
+    import subprocess
+    with Work(keep) as w:
+        w.build()
+        # (1) design: the access protocol of concurrent calls, all interleavings, every sharing configuration
+        for so in ("TRUE", "FALSE"):
+            for sc in ("TRUE", "FALSE"):
+                exhaustive(w, "C12", "Sharing.tla", "S.cfg", "Spec", ["NoConflict"],
+                           {"G": "3" if q else "4", "Bugs": "{}", "ShareOpts": so, "ShareConvs": sc}, ev, "sharing-opts%s-convs%s" % (so, sc))
+        # (2) the real code under the race detector, same sharing configurations
+        race = w.build(race=True)
+        n = 400 if q else 4000
+        w.run_drive(["gen", "-profile", "conc", "-n", str(n), "-seed", str(seed), "-out", "scenarios.json"])
+        rc = 0
+        for g in ((4,) if q else (2, 4, 8)):
+            out = "conc_%d.ndjson" % g
+            r = subprocess.run([race, "conc", "-in", "scenarios.json", "-g", str(g), "-rounds", "2" if q else "3", "-seed", str(seed), "-out", out],
+                               cwd=w.dir, capture_output=True, text=True, timeout=3000,
+                               env=dict(os.environ, GORACE="halt_on_error=0 history_size=3"))
+            log([l for l in r.stderr.splitlines() if l.startswith("drive conc")][-1:] or r.stderr[-300:])
+            lib, harness = parse_races(r.stderr, vlib.REPO)
+            ev.cov.setdefault("race_reports_library", 0)
+            ev.cov["race_reports_library"] += len(lib)
+            if r.returncode not in (0, 66):
+                raise Infra("race-enabled driver failed (%d):\n%s" % (r.returncode, r.stderr[-2000:]))
+            if harness and not lib:
+                raise Infra("the race detector reports a race inside the harness itself:\n" + harness[0]["report"])
+            if lib:
+                os.makedirs(vlib.REPLAYS, exist_ok=True)
+                rp = os.path.join(vlib.REPLAYS, "C12-%s.json" % vlib.sha(json.dumps(lib[0]["sites"])))
+                vlib.write_json(rp, {"property": "C12", "kind": "data race reported by the Go race detector", "goroutines": g,
+                                     "sites": lib[0]["sites"], "report": lib[0]["report"], "seed": seed,
+                                     "how": "drive (built with -race) conc -in scenarios.json -g %d" % g})
+                ev.doc["violations"] += 1
+                print("VIOLATION property=C12 replay=%s" % rp, flush=True)
+                rc = 1
+                break
+            # (3) outcome half: every goroutine's call, judged as one phase of a combined log
+            summarize_trace(w.path(out), ev, "")
+            rc = trace_validate(w, "C12", ["C01", "C02", "C04", "C06", "C11"], out, ev, label="concurrent-outcomes-g%d" % g)
+            if rc:
+                break
+        ev.cov["exhaustive"] = False
+        ev.cov["rule"] = ("design: all interleavings of the access sequences of G calls for every sharing configuration (Sharing.tla); real code: "
+                          "seeded random scenarios (ordinary functions only, run-once converters frequent) executed by G goroutines at once on shared "
+                          "converters and shared / private target and option values, under the Go race detector; every goroutine's executions and "
+                          "result form one phase of a combined log judged by the contract invariants")
+        ev.doc["assumptions"] = ["the Go race detector is the sensor for memory accesses of the real code (TLA+ cannot observe them)",
+                                 "functions assembled with BuildFunc are excluded, as the property says"]
+        ev.write()
+    return rc
+
+
 # --------------------------------------------------------------------------- replay
 
 
@@ -659,7 +824,9 @@ def main():
 
 
 EXTRA = {"C18": run_c18, "C19": run_c19, "C20": run_c20,
-         "C09": lambda t, s, k: run_life("C09", t, s, k), "C11": lambda t, s, k: run_life("C11", t, s, k)}
+         "C09": lambda t, s, k: run_life("C09", t, s, k), "C11": lambda t, s, k: run_life("C11", t, s, k),
+         "C14": lambda t, s, k: run_oracle("C14", t, s, k), "C15": lambda t, s, k: run_oracle("C15", t, s, k),
+         "C17": lambda t, s, k: run_oracle("C17", t, s, k), "C12": run_c12}
 
 if __name__ == "__main__":
     sys.exit(main())
